@@ -16,7 +16,8 @@
 From Coq Require Import List ZArith Bool String.
 From GoHls Require Import Lib.MuxSched Model.MuxConcSeq Model.MuxConcSpec Model.MuxConcPar
   Proofs.MuxConcSeqA Proofs.MuxConcInvA Proofs.MuxConcInvB Proofs.MuxConcInvC Proofs.MuxConcInvD
-  Proofs.MuxConcProg Proofs.MuxConcMain Proofs.MuxConcFiles.
+  Proofs.MuxConcProg Proofs.MuxConcMain Proofs.MuxConcFiles
+  Model.MuxConcSkelIR Model.MuxConcSkelExp Generated.MuxConcSkel.
 Import ListNotations.
 Local Open Scope Z_scope.
 
@@ -120,3 +121,13 @@ Example c07_hyps :
   c_wpc c = WFinished /\ c_owner c = None /\ req_pc c 0 = Some (PWoken FMulti) /\
   done_with (crun c (repeat (TR 0) 3)) 0 = Some R500 /\ m_files (c_mux c) = [].
 Proof. vm_compute. auto 10. Qed.
+
+(* the pc automata were transcribed from exactly the locking structure the source has today:
+   tools/muxconc re-extracts the skeletons from /repo on every run (Generated/MuxConcSkel.v) *)
+Theorem c07_skeletons_match :
+  (skel_Close, skel_rotateParts, skel_rotateSegments, skel_handleMultivariantPlaylist,
+   skel_handleMediaPlaylist, skel_preloadHint, skel_serverHandle, skel_streamClose) =
+  (expected_Close, expected_rotateParts, expected_rotateSegments, expected_handleMultivariantPlaylist,
+   expected_handleMediaPlaylist, expected_preloadHint, expected_serverHandle, expected_streamClose).
+Proof. reflexivity. Qed.
+Print Assumptions c07_skeletons_match.
